@@ -635,8 +635,22 @@ func (r *Runner) cmd(ctx context.Context, cm syntax.Command) {
 			if y.Init != nil {
 				r.arithm(y.Init)
 			}
-			for y.Cond == nil || r.arithm(y.Cond) != 0 {
-				if !r.exit.ok() || r.loopStmtsBroken(ctx, cm.Do) {
+			for {
+				if y.Cond != nil {
+					// Only an error in the condition ends the loop;
+					// the status of the previous iteration must not.
+					last := r.exit
+					r.exit.clear()
+					cond := r.arithm(y.Cond)
+					if !r.exit.ok() {
+						break
+					}
+					r.exit = last
+					if cond == 0 {
+						break
+					}
+				}
+				if r.loopStmtsBroken(ctx, cm.Do) {
 					break
 				}
 				if y.Post != nil {
